@@ -11,6 +11,7 @@ import Mathlib.Tactic.NormNum
 import Mathlib.Tactic.Zify
 namespace Demeter.TickClose
 open Demeter Gen
+set_option exponentiation.threshold 600
 
 theorem blt_iff (x y : Nat) : Nat.blt x y = true ↔ x < y := by
   simp [Nat.blt]
@@ -27,7 +28,7 @@ theorem close_neg_sound (a n l : Nat) (hn : 1 ≤ n) (henc : Enc a l 40) (hb : c
   simp only [Bool.and_eq_true, blt_iff, Nat.mul_eq, Nat.add_eq] at hb
   obtain ⟨h1, h2⟩ := hb
   obtain ⟨lo, hi, _⟩ := henc
-  have hK : (79228162514264337593543950336 : Nat) = 2 ^ 96 := by norm_num
+  have hK : (79228162514264337593543950336 : Nat) = 2 ^ 96 := by decide +kernel
   rw [hK] at h1 h2
   have hpa : 0 < 10001 ^ a := by positivity
   have e384 : (2 : Nat) ^ 384 = (2 ^ 96) ^ 2 * 2 ^ 192 := by rw [← Nat.pow_mul, ← Nat.pow_add]
@@ -35,9 +36,10 @@ theorem close_neg_sound (a n l : Nat) (hn : 1 ≤ n) (henc : Enc a l 40) (hb : c
   constructor
   · have h3 : (n - 1) * 2 ^ 96 < l := by
       have : (n - 1) * 2 ^ 96 + 2 ^ 96 = n * 2 ^ 96 := by
-        have : n = (n - 1) + 1 := by omega
-        rw [this, Nat.add_mul]; simp
-      omega
+        have e := Nat.succ_mul (n - 1) (2 ^ 96)
+        rw [Nat.succ_eq_add_one, Nat.sub_add_cancel hn] at e
+        exact e.symm
+      exact Nat.lt_of_add_lt_add_right (this ▸ h1)
     have h4 : ((n - 1) * 2 ^ 96) ^ 2 < l ^ 2 := Nat.pow_lt_pow_left h3 (by omega)
     have h5 : ((n - 1) * 2 ^ 96) ^ 2 * 10001 ^ a < 2 ^ 384 * 10000 ^ a :=
       Nat.lt_of_lt_of_le (Nat.mul_lt_mul_of_pos_right h4 hpa) lo
@@ -78,7 +80,7 @@ theorem pos_g0 (p l pa qa e B : ℤ) (he : 0 < e) (hpa : 0 ≤ pa) (hl : 0 < l)
 
 /-- `p < k/u + 1 + e/u²`, `X ≤ u` ⟹ `(p − 1 − β)² < I²` given `0 ≤ p − 1 − β` -/
 theorem pos_g1 (p u pa qa k e B G : ℤ) (hu : 0 < u) (hqa : 0 < qa) (hpa : 0 < pa) (hB : 0 < B) (he : 0 < e)
-    (hk : 0 < k) (c1 : p * u ^ 2 < k * u + u ^ 2 + e) (hi : e * B * qa ≤ u ^ 2 * pa)
+    (_hk : 0 < k) (c1 : p * u ^ 2 < k * u + u ^ 2 + e) (hi : e * B * qa ≤ u ^ 2 * pa)
     (rel : k ^ 2 * B ^ 2 = G * (e * B)) (g0 : 0 ≤ (p - 1) * B * qa - pa) :
     ((p - 1) * B * qa - pa) ^ 2 < G * pa * qa := by
   have hD : 0 < B * qa := by positivity
@@ -160,9 +162,9 @@ theorem close_pos_sound (a p l : Nat) (henc : Enc a l 40) (hb : closePosB p l = 
   simp only [Bool.and_eq_true, blt_iff, ble_iff, Nat.mul_eq, Nat.add_eq] at hb
   obtain ⟨⟨⟨c1, c2⟩, c3⟩, c4⟩ := hb
   obtain ⟨lo, hi, _⟩ := henc
-  have e288 : (497323236409786642155382248146820840100456150797347717440463976893159497012533375533056 : Nat) = 2 ^ 288 := by norm_num
-  have e355 : (73391955574979118963811141843059488536193514605218060347731553038824318137413079938250869550014234484736181157888 : Nat) = 2 ^ 355 := by norm_num
-  have e68 : (295147905179352825856 : Nat) = 2 ^ 68 := by norm_num
+  have e288 : (497323236409786642155382248146820840100456150797347717440463976893159497012533375533056 : Nat) = 2 ^ 288 := by decide +kernel
+  have e355 : (73391955711682288371546268649666782105490079653384995959602842860381532034831513858240593699524021969747968 : Nat) = 2 ^ 355 := by decide +kernel
+  have e68 : (295147905179352825856 : Nat) = 2 ^ 68 := by decide +kernel
   rw [e288, e355] at c1 c2
   rw [e355] at c3
   rw [e68] at c4
@@ -173,6 +175,7 @@ theorem close_pos_sound (a p l : Nat) (henc : Enc a l 40) (hb : closePosB p l = 
   have hl0 : 0 < l := by
     have : 0 < 2 ^ 68 := by positivity
     omega
+  simp only [← pow_two] at c1 c2 c3
   zify at c1 c2 c3 c4 lo hi hpa0 hqa0 hl0
   have e384 : (2 : ℤ) ^ 384 = 2 ^ 355 * 2 ^ 29 := by norm_num
   rw [e384] at lo hi
